@@ -98,6 +98,9 @@ Definition mono_item (G : vorder) (b : bitem) : Prop :=
   | BGen x g xs => mono_gen G x g xs
   | BAgg _ _ _ _ _ => False
   end.
-Definition mono_rule (G : vorder) (ru : rule) : Prop := Forall (mono_item G) (body ru) /\ Forall (mono_head G) (heads ru).
+(* every G x is an order on a subset of the values: related values belong to the subset *)
+Definition vorder_dom (G : vorder) : Prop := forall x a b, G x a b -> G x a a /\ G x b b.
+Definition mono_rule (G : vorder) (ru : rule) : Prop :=
+  vorder_dom G /\ Forall (mono_item G) (body ru) /\ Forall (mono_head G) (heads ru).
 Definition monotone_program (P : list rule) : Prop := forall ru, In ru P -> exists G, mono_rule G ru.
 End Sem.
